@@ -197,7 +197,8 @@ impl<'a, D: DependencyProvider> Encoder<'a, D> {
             // Note that the excluded candidate may already have been selected: a solvable
             // that was requested directly (a soft requirement) is only subject to the
             // exclusions of its package once that package is requested by a version set.
-            // `add_exclusion_clause` reports the clause as conflicting in that case.
+            // `add_exclusion_clause` reports the clause as conflicting if the current run
+            // made that selection.
             self.add_exclusion_clause(solvable.into(), reason);
         }
     }
@@ -433,8 +434,15 @@ impl<'a, D: DependencyProvider> Encoder<'a, D> {
         self.state.negative_assertions.push((variable, clause_id));
 
         // If the clause is already conflicting, e.g. we already decided that this
-        // solvable must be installed, we add it to the list for later processing
-        if self.state.decision_tracker.assigned_value(variable) == Some(true) {
+        // solvable must be installed, we add it to the list for later processing.
+        //
+        // A directly requested (soft) solvable that was accepted by an earlier run,
+        // before the exclusions of its package were known, keeps its exemption from
+        // them: that decision cannot be undone by the current run and does not count
+        // against the soft requirement that happens to discover the exclusion.
+        if self.state.decision_tracker.assigned_value(variable) == Some(true)
+            && self.state.decision_tracker.level(variable) > self.state.run_starting_level
+        {
             self.conflicting_clauses.push(clause_id)
         }
 
